@@ -25,7 +25,7 @@ TECHNIQUE = 'runtime monitoring: post-conditions with an exhaustive subset-enume
 
 LETTERS = list('ACDEKPST')
 TARGETS = ['P', 'K', 'S', 'T', 'E', 'C', 'D', 'A', '[ST]', '(?<=P)E', 'K(?!P)', 'PE', '(?<=[KR])S', 'T(?=A)', '[DE]',
-           '(?<!^)C', 'A$', '^K']
+           '(?<!^)C', 'A$', '^K', '.', '[^P]', '[A-Z]']
 MODVALS = ['Phospho', 'Acetyl', 'Oxidation', 1.5, 2, 'Methyl', 79.966, 'Carbamidomethyl', -18]
 
 
@@ -106,6 +106,29 @@ def gen_rules(rng, seq, n_rules, groups=False):
     return rules
 
 
+def spelled(pt, rng, spec, groups):
+    """The same rule set written in another of the documented input shapes: a modification as a Mod object, a
+    one-group rule as a flat list, a one-modification rule as a bare value."""
+    def elem(v):
+        return pt.Mod(v, 1) if rng.random() < 0.25 else v
+
+    def flat(g):
+        g2 = [elem(v) for v in g]
+        return g2[0] if len(g2) == 1 and rng.random() < 0.3 else g2
+
+    if spec is None:
+        return None
+    if isinstance(spec, dict):
+        return {k: spelled(pt, rng, v, groups) for k, v in spec.items()}
+    if isinstance(spec, list) and spec and all(isinstance(g, list) for g in spec):
+        if len(spec) == 1 and rng.random() < 0.35:
+            return flat(spec[0])
+        return [[elem(v) for v in g] for g in spec]
+    if isinstance(spec, list):
+        return flat(spec)
+    return elem(spec)
+
+
 def gen_term(rng, seq, end, groups=False):
     """terminal rule spec and the list of groups that apply to this sequence"""
     r = rng.random()
@@ -123,7 +146,7 @@ def gen_term(rng, seq, end, groups=False):
             spec = gs[0]
         return spec, gs
     # with a residue condition
-    cond = rng.choice(['P', 'K', 'A', 'S', '[ST]', 'E'])
+    cond = rng.choice(['P', 'K', 'A', 'S', '[ST]', 'E', '.', '[^P]'])
     target = seq[0] if end == 'n' else seq[-1]
     applies = bool(re.fullmatch(cond, target))
     return {cond: (gs if groups else gs[0])}, (gs if applies else [])
@@ -173,8 +196,9 @@ def run_static(ctx, st, pt, p: Pep):
     import copy
     st.case = {}
     try:
-        pt.apply_static_mods(text if rng.random() < 0.6 else pt.parse(text), copy.deepcopy(rules) or None,
-                             copy.deepcopy(nspec), copy.deepcopy(cspec), mode, rt)
+        sp = (spelled(pt, rng, rules, False) or None, spelled(pt, rng, nspec, False), spelled(pt, rng, cspec, False))
+        case['as_passed'] = repr(sp)
+        pt.apply_static_mods(text if rng.random() < 0.6 else pt.parse(text), sp[0], sp[1], sp[2], mode, rt)
     except Exception as ex:
         ctx.decided()
         ctx.violation('apply_static_mods-raises', {'case': {k: v for k, v in case.items() if k != 'pep'},
@@ -274,8 +298,9 @@ def run_variable(ctx, st, pt, p: Pep):
     ctx.begin(case)
     st.case = {}
     try:
-        pt.apply_variable_mods(text if rng.random() < 0.6 else pt.parse(text), copy.deepcopy(rules) or None, max_mods,
-                               copy.deepcopy(nspec), copy.deepcopy(cspec), mode, rt)
+        sp = (spelled(pt, rng, rules, True) or None, spelled(pt, rng, nspec, True), spelled(pt, rng, cspec, True))
+        case['as_passed'] = repr(sp)
+        pt.apply_variable_mods(text if rng.random() < 0.6 else pt.parse(text), sp[0], max_mods, sp[1], sp[2], mode, rt)
     except Exception as ex:
         ctx.decided()
         ctx.violation('apply_variable_mods-raises', {'case': {k: v for k, v in case.items() if k != 'pep'},
